@@ -102,3 +102,22 @@ func VerifInstall(process source.Source) *VerifLogger {
 	}
 	return l
 }
+
+// VerifInstallReal installs loggers built the way Start builds them, with the
+// real logger implementation of the given name (stdout, none, ...) from
+// loggers.Factory; what that logger prints goes through fmt.Print/Println,
+// which a harness replaces to observe the terminal.
+func VerifInstallReal(process source.Source, loggerName string) {
+	VerifInstall(process)
+	config.Common.Logger = loggerName
+	config.Common.LogLevel = "warn"
+	if len(os.Args) == 0 {
+		os.Args = []string{"dtail"}
+	}
+	Client = new(process, source.Client)
+	Server = new(process, source.Server)
+	Common = Client
+	if process == source.Server {
+		Common = Server
+	}
+}
